@@ -111,7 +111,10 @@ impl Installation {
     ///
     /// Returns error if file cannot be found or read
     pub async fn read_file_by_content_key(&self, content_key: &ContentKey) -> Result<Vec<u8>> {
-        let cache_key = hex::encode(content_key.as_bytes());
+        // Every kind of request has its own prefix in the cache ("ckey:",
+        // "ekey:", "fdid:", "path:"): a path must never be answered from the
+        // cell of another request that happens to be spelled like it
+        let cache_key = format!("ckey:{}", hex::encode(content_key.as_bytes()));
         debug!("Reading file by content key: {}", cache_key);
 
         // Step 1: Check cache first
@@ -246,9 +249,10 @@ impl Installation {
         debug!("Reading file by path: {}", path);
 
         // Check cache with path as key first
+        let path_key = format!("path:{path}");
         {
             let cache = self.cache.read().await;
-            if let Some(cached_data) = cache.get(path) {
+            if let Some(cached_data) = cache.get(&path_key) {
                 debug!("Cache hit for path: {}", path);
                 return Ok(cached_data.clone());
             }
@@ -265,7 +269,7 @@ impl Installation {
         // Cache with path as well for faster future path-based lookups
         {
             let cache = self.cache.read().await;
-            cache.insert(path.to_string(), data.clone());
+            cache.insert(path_key, data.clone());
         }
 
         Ok(data)
